@@ -2479,6 +2479,9 @@ def distributed_shampoo(
     Returns:
       A tuple containing the new parameters and the new optimizer state.
     """
+    # A restored checkpoint (flax.serialization.from_bytes) holds NumPy leaves,
+    # whose promotion rules with Python scalars differ from JAX's.
+    state = jax.tree.map(jnp.asarray, state)
     params_flat, treedef = jax.tree.flatten(params)
     grads_flat = treedef.flatten_up_to(grads)
 
@@ -3708,6 +3711,9 @@ def distributed_shampoo(
     Returns:
       A tuple containing the new parameters and the new optimizer state.
     """
+    # A restored checkpoint (flax.serialization.from_bytes) holds NumPy leaves,
+    # whose promotion rules with Python scalars differ from JAX's.
+    state = jax.tree.map(jnp.asarray, state)
     params_flat, treedef = jax.tree.flatten(params)
     stats_flat = treedef.flatten_up_to(state.stats)
     grads_flat = treedef.flatten_up_to(grads)
